@@ -34,6 +34,9 @@ def gen_case(rng, tier, k):
     if rng.random() < 0.4:
         j = rng.randrange(len(ops))
         ops[j] = ops[j] + [{"fail_at": rng.randint(1, 4)}]
+    if mm < 100000 and rng.random() < 0.6:
+        # the limit is relaxed on the same diagram after (possibly) hitting it
+        ops.insert(rng.randint(1, len(ops)), ["setmm", rng.choice([100000, 100000, mm + 1, mm + 2])])
     return {"bnet": bnet, "max_motifs": mm, "ops": ops, "final_full": True, "judge_contract": True}
 
 
